@@ -135,10 +135,60 @@ def build_fresh(grammar_path: str = "/repo/src/measured/measured.lark",
 # regex -> z3
 
 
-def regex_to_z3(pattern: str, flags: Sequence[str] = ()) -> z3.ReRef:
-    if flags:
-        raise HarnessError(f"regex flags {flags} are outside the translated subset")
-    return _tr(sre_parse.parse(pattern))
+_FLAG_LETTERS = {"i": 2, "L": 4, "m": 8, "s": 16, "u": 32, "x": 64, "a": 256}
+_FOLD: List[int] = [0]          # flags in force while translating (IGNORECASE | ASCII matter)
+_ALLCHARS = "".join(chr(c) for c in range(0x30000) if not 0xD800 <= c <= 0xDFFF)
+_EFFECTIVE: Dict[Any, List[Tuple[int, int]]] = {}
+
+
+def effective_ranges(ranges: Sequence[Tuple[int, int]], flags: int) -> List[Tuple[int, int]]:
+    """The characters a character set matches under the given flags: with IGNORECASE the set is
+    closed under Python's own case-insensitive matching, read off the real `re` by matching the
+    class against every code point below U+30000 (a static table, not a sample)."""
+    import re as _re
+
+    if not flags & 2:
+        return list(ranges)
+    key = (tuple(ranges), flags & (2 | 256))
+    if key not in _EFFECTIVE:
+        cls = "[" + "".join(_re.escape(chr(a)) if a == b else f"{_re.escape(chr(a))}-{_re.escape(chr(b))}"
+                            for a, b in ranges) + "]"
+        hits = [ord(c) for c in _re.compile(cls, flags & (2 | 256)).findall(_ALLCHARS)]
+        out: List[Tuple[int, int]] = []
+        for c in hits:
+            if out and out[-1][1] == c - 1:
+                out[-1] = (out[-1][0], c)
+            else:
+                out.append((c, c))
+        _EFFECTIVE[key] = out
+    return _EFFECTIVE[key]
+
+
+def _set_re(ranges: Sequence[Tuple[int, int]]) -> z3.ReRef:
+    rs = effective_ranges(ranges, _FOLD[0])
+    alts = [z3.Re(_chr(a)) if a == b else z3.Range(chr(a), chr(b)) for a, b in rs]
+    return alts[0] if len(alts) == 1 else z3.Union(*alts)
+
+
+def flags_int(flags: Sequence[str] = (), gflags: int = 0) -> int:
+    fl = int(gflags or 0)
+    for f in flags or ():
+        if f not in _FLAG_LETTERS:
+            raise HarnessError(f"regex flag {f!r} unknown")
+        fl |= _FLAG_LETTERS[f]
+    if fl & 4:
+        raise HarnessError("LOCALE flag on a str pattern")
+    return fl
+
+
+def regex_to_z3(pattern: str, flags: Sequence[str] = (), gflags: int = 0) -> z3.ReRef:
+    fl = flags_int(flags, gflags)
+    tree = sre_parse.parse(pattern, fl & ~32)
+    _FOLD[0] = fl | (tree.state.flags if hasattr(tree, "state") else 0)
+    try:
+        return _tr(tree)
+    finally:
+        _FOLD[0] = 0
 
 
 def _chr(c: int) -> z3.SeqRef:
@@ -161,9 +211,9 @@ def _tr_in(items: Any) -> z3.ReRef:
         if op is sre_c.NEGATE:
             negate = True
         elif op is sre_c.LITERAL:
-            alts.append(z3.Re(_chr(av)))
+            alts.append(_set_re([(av, av)]))
         elif op is sre_c.RANGE:
-            alts.append(z3.Range(chr(av[0]), chr(av[1])))
+            alts.append(_set_re([(av[0], av[1])]))
         elif op is sre_c.CATEGORY:
             alts.append(_category(av))
         else:
@@ -184,13 +234,18 @@ def _category(av: Any) -> z3.ReRef:
 
 def _tr1(op: Any, av: Any) -> z3.ReRef:
     if op is sre_c.LITERAL:
-        return z3.Re(_chr(av))
+        return _set_re([(av, av)])
     if op is sre_c.IN:
         return _tr_in(av)
     if op is sre_c.BRANCH:
         return z3.Union(*[_tr(b) for b in av[1]])
     if op is sre_c.SUBPATTERN:
-        return _tr(av[3])
+        saved = _FOLD[0]
+        _FOLD[0] = (saved | av[1]) & ~av[2]          # scoped inline flags (?i:...) / (?-i:...)
+        try:
+            return _tr(av[3])
+        finally:
+            _FOLD[0] = saved
     if op in (sre_c.MAX_REPEAT, sre_c.MIN_REPEAT):
         lo, hi, sub = av
         r = _tr(sub)
@@ -217,12 +272,15 @@ def z3_string(val: Any) -> str:
 
 
 def terminal_re(t: Tables, name: str) -> z3.ReRef:
+    """The language the lexer matches for this terminal: its pattern under its own flags and the
+    global g_regex_flags the embedded runtime compiles every terminal with."""
     kind, value, flags, _ = t.terminals[name]
+    g = t.option_subset.get("g_regex_flags") or 0
     if kind == "PatternStr":
-        if flags:
-            raise HarnessError("string terminal with flags")
-        return z3.Re(z3.StringVal(value))
-    return regex_to_z3(value, flags)
+        import re as _re
+
+        return regex_to_z3(_re.escape(value), flags, g)
+    return regex_to_z3(value, flags, g)
 
 
 def char_sets(pattern: str) -> List[List[Tuple[int, int]]]:
